@@ -4,11 +4,13 @@ From Playback Require Export Run.RunRec Run.RunRace.
 
 Inductive case04 :=
 | H (c : RunRec.case)
-| T (v : variant) (m0 m1 : meth) (m2 : option meth) (e f : nat) (observed : race_obs).
+| T (v : variant) (m0 m1 : meth) (m2 : option meth) (e f : nat) (observed : race_obs)
+| S (v : variant) (ms : list meth) (sched : list nat) (observed : race_obs).
 Definition case := case04.
 
 Definition check_case (c : case) : bool :=
   match c with
   | H hc => check_with (fun m i => eq_outcome m i && eq_trace m i) hc
   | T v m0 m1 m2 e f o => eq_race (model_race v m0 m1 m2 e f) o
+  | S v ms sched o => eq_race (model_sched v ms sched) o
   end.
